@@ -88,6 +88,14 @@ pub struct NewConnectionIdX { pub sequence_number: VarIntX, pub retire_prior_to:
 pub enum Interest { None, NewData, LostData, Forced }
 pub mod transmission { pub use super::Interest; }
 
+pub enum ConnIdInterest { None, New(u8) }
+pub struct CountMemo { pub value: Ghost<u8> }
+impl CountMemo {
+    #[verifier::external_body]
+    pub fn get(&self, ids: &Vec<LocalIdInfo>) -> (r: u8) ensures r == self.value@ { unimplemented!() }
+    #[verifier::external_body]
+    pub fn clear(&self) { unimplemented!() }
+}
 pub struct Memo { pub dummy: u8 }
 impl Memo {
     // Memo::clear only drops the cached value (s2n-quic-core memo.rs); no access to the registry fields
@@ -161,7 +169,7 @@ pub struct LocalIdRegistry {
     pub next_expiration: Memo,
     pub ack_interest: Memo,
     pub transmission_interest: Memo,
-    pub active_id_count: Memo,
+    pub active_id_count: CountMemo,
 }
 
 pub const MAX_ACTIVE_CONNECTION_ID_LIMIT: u64 = 3;
@@ -266,6 +274,23 @@ impl LocalIdRegistry {
     {
 //@ splice-stmts quic/s2n-quic-transport/src/connection/local_id_registry.rs "LocalIdRegistry" on_retire_connection_id "from=if let Some(id_info) = id_info" "subst=timestamp + rtt * RTT_MULTIPLIER=>timestamp.add(rtt.mul_u32(RTT_MULTIPLIER))"
         Ok(())
+    }
+
+    // ---- connection_id_interest: how many new ids the endpoint asks its id generator for (WHOLE function) ----------------------
+    // RFC 9000 5.1.1 "An endpoint MUST NOT provide more connection IDs than the peer's limit": Interest::New(k) only with
+    // unretired + k == the (capped) peer limit; no interest at the limit.  `active_id_count.get(..)` is the memoised number of
+    // entries that count towards the limit (Memo::get returns the query's value: s2n-quic-core memo.rs; the query is the
+    // counting loop in LocalIdRegistry::new -- ASSUMED to equal the count of `counts_towards_limit` entries)
+    fn connection_id_interest_body(&self) -> (ret: ConnIdInterest)
+        requires
+            // representation invariant (debug self-check check_active_connection_id_limit / lidr_inv): active <= limit
+            self.active_id_count.value@ <= self.active_connection_id_limit,
+        ensures
+            ret is New ==> ret->New_0 > 0 && self.active_id_count.value@ as int + ret->New_0 as int == self.active_connection_id_limit as int,
+            ret is None <==> self.active_id_count.value@ == self.active_connection_id_limit,
+            lidr_interest_exact(Lidr { next_seq: 0, retire_prior_to: 0, limit: self.active_connection_id_limit as int, len: 0, active: self.active_id_count.value@ as int }, (if ret is New { ret->New_0 as int } else { 0 })),
+    {
+//@ splice-stmts quic/s2n-quic-transport/src/connection/local_id_registry.rs "LocalIdRegistry" connection_id_interest body=1 dropstmt=self.check_active_connection_id_limit "subst=connection::id::Interest=>ConnIdInterest"
     }
 
     // ---- register_connection_id: issue the next sequence number ---------------------------------------------------
